@@ -14,7 +14,8 @@ sys.path.insert(0, str(Path(__file__).resolve().parent.parent / "translate"))
 
 PROP = "C10"
 LEAN_PROPS = "PpciVerif/Props/C10.lean"
-LEAN_TARGETS = ["PpciVerif.Props.C10", "Drivers.C10"]
+LEAN_PROPS_EXTRA = ["PpciVerif/Props/C10T1.lean"]   # T1 translation tie of relocation bodies (harness/t1.py, notes/T1.md)
+LEAN_TARGETS = ["PpciVerif.Props.C10", "Drivers.C10", "PpciVerif.Props.C10T1"]
 LEVEL = "proof"
 LEVEL_TEXT = (
     "Lean theorems. (1) For EVERY token field (any width, any bit_range/bit_concat layout that passes the decidable well-formedness "
@@ -69,6 +70,8 @@ def regen(ctx):
     ctx.tabs = tabs
     if changed:
         ctx.note("regenerated " + ", ".join(changed))
+    from . import t1                # T1: py2lean translation of relocation calc/apply bodies (+ the bitfun helpers they call)
+    t1.regen_many(ctx, t1.RELOC_KEYS)
 
 
 def get_tabs(ctx):
